@@ -76,6 +76,10 @@ struct Case {
     /// what an incomplete delta left out, so convergence must also be shown without it.
     #[serde(default)]
     once: bool,
+    /// late mode: after the history every TTL runs out and every replica's TTL sweep runs; only then is the rest
+    /// delivered (late, reordered), followed by another sweep. Only what replicas *serve* is compared afterwards.
+    #[serde(default)]
+    late: bool,
 }
 
 fn kname(k: u8) -> String {
@@ -730,6 +734,14 @@ async fn run_nodes(case: &Case, rep: &mut Report) -> Vec<Finding> {
             _ => {}
         }
     }
+    if run.case.late {
+        // every TTL runs out, every replica sweeps; the rest of the deltas arrive only afterwards
+        now += 5_000_000_000;
+        for nd in &run.nodes {
+            nd.tick(now).await;
+        }
+        rep.count("runs_late_delivery_after_expiry");
+    }
     // quiescence: everything outstanding to everyone, twice, in two different orders
     let mut fin: Vec<(usize, usize)> = run.case.fin.iter().copied().filter(|(o, t)| run.produced.get(o).map_or(false, |(f, d)| f != t && !d.is_empty()) && *t < n).collect();
     for (id, (from, ds)) in &run.produced {
@@ -764,6 +776,44 @@ async fn run_nodes(case: &Case, rep: &mut Report) -> Vec<Finding> {
     let labels: BTreeMap<usize, String> = run.case.steps.iter().filter_map(|s| if let Step::Op { id, at, key, cmd } = s { Some((*id, format!("{}@{}:{}", label(cmd), at, key))) } else { None }).collect();
     if run.seq.iter().any(|s| !s.is_empty()) {
         rep.distinct(&("order", &run.case.subject, n, run.seq.iter().map(|s| s.iter().map(|o| labels.get(o).cloned().unwrap_or_default()).collect::<Vec<_>>()).collect::<Vec<_>>()));
+    }
+    if run.case.late {
+        now += 5_000_000_000;
+        for nd in &run.nodes {
+            nd.tick(now).await;
+        }
+        // everything that carried a TTL is gone by now; replicas must serve the same for every key
+        for k in &keys {
+            let mut served = vec![];
+            for nd in &run.nodes {
+                match nd.look(&kname(*k)).await {
+                    Ok(l) => served.push(l.served),
+                    Err(e) => {
+                        run.died("read", "after-expiry", e);
+                        return run.out;
+                    }
+                }
+            }
+            rep.count("keys_judged_after_expiry_and_late_delivery");
+            if let Some(comp) = served.windows(2).find_map(|w| diff(&w[0], &w[1])) {
+                // an update that never left its replica (the listed multi-key DEL finding) explains a difference here too
+                if let Some(((r, _), c)) = run.tr.unshipped.iter().find(|((_, kk), _)| kk == k) {
+                    run.out.push(Finding {
+                        sig: format!("C06|{}|update_not_shipped|{}", c.full, if c.full.ends_with("multi") { "key-not-last" } else { "single-key" }),
+                        detail: format!("replica #{} changed {} under a stamp that no delta returned by execute() carried, so no peer can ever learn it", r, kname(*k)),
+                        obs: json!({"key": kname(*k), "served": served.iter().map(|l| json!(l)).collect::<Vec<_>>()}),
+                    });
+                    continue;
+                }
+                let kinds: BTreeSet<String> = served.iter().map(|v| v.kind.to_string()).collect();
+                run.out.push(Finding {
+                    sig: format!("C06|expire|replicas_differ_after_expiry_and_late_delivery:{}|served={}", comp, kinds.into_iter().collect::<Vec<_>>().join(",")),
+                    detail: format!("every TTL ran out and every replica swept before the remaining deltas arrived; afterwards replicas serve {} differently: {:?}", kname(*k), served),
+                    obs: json!({"key": kname(*k), "served": served.iter().map(|l| json!(l)).collect::<Vec<_>>()}),
+                });
+            }
+        }
+        return run.out;
     }
     // judge
     let mut clean: Vec<u8> = vec![];
@@ -1073,7 +1123,7 @@ fn matrix_cases() -> Vec<(&'static str, Case)> {
                     prefix(&mut steps, &pr, 2);
                     steps.push(Step::Op { id: pr.len(), at, key: 0, cmd: c.clone() });
                     steps.push(Step::Deliver { op: pr.len(), to: 1 - at });
-                    out.push(("E1", Case { subject: subject.into(), causal: false, rids: vec![1, 2], steps, fin: vec![], sim_seed: 0, auto_ae: false, once: false }));
+                    out.push(("E1", Case { subject: subject.into(), causal: false, rids: vec![1, 2], steps, fin: vec![], sim_seed: 0, auto_ae: false, once: false, late: false }));
                 }
             }
         }
@@ -1088,7 +1138,7 @@ fn matrix_cases() -> Vec<(&'static str, Case)> {
                 for (op, to) in [(p, 2), (p + 1, 2), (p + 1, 3), (p, 3), (p, 1), (p + 1, 0)] {
                     steps.push(Step::Deliver { op, to });
                 }
-                out.push(("E2", Case { subject: "actor".into(), causal: false, rids: vec![1, 2, 3, 4], steps, fin: vec![], sim_seed: 0, auto_ae: false, once: false }));
+                out.push(("E2", Case { subject: "actor".into(), causal: false, rids: vec![1, 2, 3, 4], steps, fin: vec![], sim_seed: 0, auto_ae: false, once: false, late: false }));
             }
         }
     }
@@ -1104,7 +1154,7 @@ fn matrix_cases() -> Vec<(&'static str, Case)> {
                     steps.push(Step::Op { id: i, at: 0, key: 0, cmd: c.clone() });
                     steps.push(Step::Deliver { op: i, to: 1 });
                 }
-                out.push(("E3", Case { subject: "actor".into(), causal: false, rids: vec![2, 1], steps, fin: vec![], sim_seed: 0, auto_ae: false, once: false }));
+                out.push(("E3", Case { subject: "actor".into(), causal: false, rids: vec![2, 1], steps, fin: vec![], sim_seed: 0, auto_ae: false, once: false, late: false }));
             }
         }
     }
@@ -1116,7 +1166,7 @@ fn matrix_cases() -> Vec<(&'static str, Case)> {
             steps.push(Step::Op { id: j, at: 0, key: 0, cmd: tiny[i / tiny.len().pow(j as u32) % tiny.len()].clone() });
             steps.push(Step::Deliver { op: j, to: 1 });
         }
-        out.push(("E4", Case { subject: "actor".into(), causal: false, rids: vec![2, 1], steps, fin: vec![], sim_seed: 0, auto_ae: false, once: false }));
+        out.push(("E4", Case { subject: "actor".into(), causal: false, rids: vec![2, 1], steps, fin: vec![], sim_seed: 0, auto_ae: false, once: false, late: false }));
     }
     // ES: the simulator's SET/DEL alphabet on every prior, at the node that wrote the prior and at a peer
     let nx = |v: &str| set_with(v, |_, _, nx, _, _, _| *nx = true);
@@ -1128,7 +1178,7 @@ fn matrix_cases() -> Vec<(&'static str, Case)> {
                 let mut steps: Vec<Step> = vec![Step::Loss(if lossy { 1000 } else { 0 })];
                 steps.extend(pr.iter().map(|c| Step::Op { id: 0, at: 0, key: 0, cmd: c.clone() }));
                 steps.extend([Step::Gossip, Step::Tick(20), Step::Gossip, Step::Loss(0), Step::Op { id: 1, at, key: 0, cmd: c.clone() }, Step::Gossip, Step::Tick(20), Step::Gossip]);
-                out.push(("ES", Case { subject: "sim".into(), causal: false, rids: vec![1, 2, 3], steps, fin: vec![], sim_seed: 7, auto_ae: true, once: false }));
+                out.push(("ES", Case { subject: "sim".into(), causal: false, rids: vec![1, 2, 3], steps, fin: vec![], sim_seed: 7, auto_ae: true, once: false, late: false }));
             }
         }
     }
@@ -1217,7 +1267,7 @@ fn gen_random(rng: &mut Rng, rep: &mut Report) -> Case {
     }
     ev.sort_by_key(|e| (e.0, e.1));
     fin.shuffle(rng);
-    Case { subject: if rng.gen_bool(0.3) { "state".into() } else { "actor".into() }, causal: rng.gen_bool(0.25), rids: pool[..n].to_vec(), steps: ev.into_iter().map(|e| e.2).collect(), fin, sim_seed: 0, auto_ae: false, once: rng.gen_bool(0.25) }
+    Case { subject: if rng.gen_bool(0.3) { "state".into() } else { "actor".into() }, causal: rng.gen_bool(0.25), rids: pool[..n].to_vec(), steps: ev.into_iter().map(|e| e.2).collect(), fin, sim_seed: 0, auto_ae: false, once: rng.gen_bool(0.25), late: false }
 }
 
 /// One replica is the only hash writer of the key and never learns of the other replicas' whole-key writes (DEL,
@@ -1273,7 +1323,7 @@ fn gen_single_hash_writer(rng: &mut Rng) -> Case {
     }
     ev.sort_by_key(|e| (e.0, e.1));
     fin.shuffle(rng);
-    Case { subject: if rng.gen_bool(0.3) { "state".into() } else { "actor".into() }, causal: false, rids: pool[..n].to_vec(), steps: ev.into_iter().map(|e| e.2).collect(), fin, sim_seed: 0, auto_ae: false, once: rng.gen_bool(0.6) }
+    Case { subject: if rng.gen_bool(0.3) { "state".into() } else { "actor".into() }, causal: false, rids: pool[..n].to_vec(), steps: ev.into_iter().map(|e| e.2).collect(), fin, sim_seed: 0, auto_ae: false, once: rng.gen_bool(0.6), late: false }
 }
 
 /// A history for MultiNodeSimulation: SET/DEL mixes with gossip rounds, loss, partitions and anti-entropy.
@@ -1303,7 +1353,7 @@ fn gen_sim(rng: &mut Rng) -> Case {
             _ => Step::AntiEntropy,
         });
     }
-    Case { subject: "sim".into(), causal: false, rids: (1..=n as u64).collect(), steps, fin: vec![], sim_seed: rng.gen_range(0..1000), auto_ae: rng.gen_bool(0.5), once: false }
+    Case { subject: "sim".into(), causal: false, rids: (1..=n as u64).collect(), steps, fin: vec![], sim_seed: rng.gen_range(0..1000), auto_ae: rng.gen_bool(0.5), once: false, late: false }
 }
 
 // ---------------------------------------------------------------- the leg
@@ -1362,6 +1412,32 @@ pub fn converge_leg(args: &Args) {
         do_case(&mut rep, &case, "H");
         if i == 0 {
             rep.sample(json!({"part": "H", "case": case}));
+        }
+    }
+    // L: TTL-bearing histories whose remaining deltas arrive after every TTL ran out and every replica swept
+    let mut rng = args.rng(63);
+    for i in 0..args.get_u64("late", if t { 5000 } else { 700 }) {
+        if !want("L") {
+            break;
+        }
+        let mut case = gen_random(&mut rng, &mut rep);
+        case.late = true;
+        case.causal = false;
+        // strings only, single-key DEL only: hashes and multi-key DEL are where the two listed findings live, and this
+        // part is about deadlines, sweeps and late deliveries
+        for st in case.steps.iter_mut() {
+            if let Step::Op { key, cmd, .. } = st {
+                let replace = matches!(cmd, Cmd::HSet(_) | Cmd::HDel(_) | Cmd::HIncrBy(..)) || matches!(cmd, Cmd::Del(ks) if ks.len() > 1);
+                if replace {
+                    let v = *VALS.choose(&mut rng).unwrap();
+                    let px = [500i64, 150_000, 2_000][rng.gen_range(0..3)];
+                    *cmd = if rng.gen_bool(0.7) { set_with(v, |_, p, _, _, _, _| *p = Some(px)) } else { Cmd::Del(vec![*key]) };
+                }
+            }
+        }
+        do_case(&mut rep, &case, "L");
+        if i == 0 {
+            rep.sample(json!({"part": "L", "case": case}));
         }
     }
     // S: the simulator's own glue
